@@ -10,7 +10,7 @@ package crypki
 //vsym:model google.golang.org/grpc/status.Code m17StatusCode
 //vsym:replay same-harness
 //vsym:expect-cover C17.failover.first-ok C17.failover.later-ok C17.failover.all-failed C17.failover.none-configured
-//vsym:bound H17_failover: 0..3 endpoints (thorough 0..4); per endpoint: dial error, RPC error, unparsable reply, or a reply with 1..2 certificates carrying empty or 1-byte symbolic comments (printable, non-space)
+//vsym:bound H17_failover: 0..3 endpoints (thorough 0..4); per endpoint: dial error, RPC error, unparsable reply, empty reply, or a reply with 1..2 certificates carrying empty or 1-byte symbolic comments (printable, non-space); two Sign calls on the same signer
 //vsym:assume grpc dial / RPC and ssh.ParseAuthorizedKey are modelled (arbitrary outcome per endpoint; one key line per call); replay runs real in-process gRPC servers (bufconn) and real ed25519 certificates
 
 import (
@@ -35,6 +35,7 @@ const (
 	o17DialErr = iota
 	o17RPCErr
 	o17Garbage
+	o17Empty // status OK with no key material at all
 	o17Certs
 )
 
@@ -107,6 +108,8 @@ func (c *m17Client) PostUserSSHCertificate(ctx context.Context, in *pb.SSHCertif
 		return nil, errors.New("model: rpc failed")
 	case o17Garbage:
 		return &pb.SSHKey{Key: "G\n"}, nil
+	case o17Empty:
+		return &pb.SSHKey{Key: ""}, nil
 	}
 	text := ""
 	for i := 0; i < e.ncerts; i++ {
@@ -169,6 +172,8 @@ func (s *n17Server) PostUserSSHCertificate(ctx context.Context, in *pb.SSHCertif
 		return nil, errors.New("scripted rpc failure")
 	case o17Garbage:
 		return &pb.SSHKey{Key: "G\n"}, nil
+	case o17Empty:
+		return &pb.SSHKey{Key: ""}, nil
 	}
 	text := ""
 	for i := 0; i < e.ncerts; i++ {
@@ -237,7 +242,7 @@ func H17_failover() {
 	var eps []string
 	firstOK := -1
 	for i := 0; i < n; i++ {
-		e := s17Endpoint{outcome: vChoose(4, "outcome")}
+		e := s17Endpoint{outcome: vChoose(5, "outcome")}
 		if e.outcome == o17Certs {
 			e.ncerts = 1 + vChoose(2, "ncerts")
 			for j := 0; j < e.ncerts; j++ {
@@ -276,7 +281,15 @@ func H17_failover() {
 		defer cancel()
 	}
 
-	certs, comments, err := s.Sign(ctx, req)
+	// two calls on the same signer: the order is the configured one every time
+	for round := 0; round < 2; round++ {
+		m17Contacted = nil
+		certs, comments, err := s.Sign(ctx, req)
+		h17Judge(s, req, n, firstOK, ctxDone, certs, comments, err)
+	}
+}
+
+func h17Judge(s *Signer, req *pb.SSHCertificateSigningRequest, n, firstOK int, ctxDone bool, certs []ssh.PublicKey, comments []string, err error) {
 
 	vFact("endpoints", n)
 	if ctxDone {
